@@ -325,6 +325,23 @@ def rule_choke_point(ctx, facts, rule):
         dom = all(fn.dominates(b, s) for s in sends)
         ok = keeps_sampled and dom and bool(sends)
         detail = "retain closure returns %s; dominates send: %s" % (origin_strs(ret), dom)
+    if not ok:
+        # the same filter written as an iterator pipeline: collect_token.into_iter().filter(|item| item.is_sampled).collect()
+        sub = constructions(facts, "fastrace::collector::command::SubmitSpans", crates=["fastrace"])
+        for b in fn.calls_re(r"iter::traits::iterator::Iterator::filter$", cleanup=False):
+            t = fn.term(b)
+            tok = has_origin(prov.of_operand(fn, t["args"][0]), kind="param", key=3)
+            cd = prov._closure_def(fn, t["args"][1])
+            if not (tok and cd):
+                continue
+            ret = data_origins(prov.of_local(cd[0], 0))
+            keeps_sampled = bool(ret) and all(x.kind == "param" and x.key == 2 and x.path == (".is_sampled",) and
+                                              not any(v[0] == "unop" for v in x.via) for x in ret)
+            dom = all(fn.dominates(b, s_) for s_ in sends)
+            carried = bool(sub) and all(any(v[0] == "call" and v[2] == b for o in prov.of_operand(fnc, f["collect_token"]) for v in o.via)
+                                        for fnc, _b, _s, f in sub if fnc is fn or fnc.path == fn.path)
+            ok = keeps_sampled and dom and bool(sends) and carried
+            detail = "filter closure returns %s; dominates send: %s; the command carries the filtered items: %s" % (origin_strs(ret), dom, carried)
     ctx.check(ok, rule, fn.path, fn.span,
               "before anything is sent the token is filtered to its sampled items (retain(|item| item.is_sampled))", detail, detail,
               extra="filter")
@@ -1029,6 +1046,8 @@ def rule_token_order_preserved(ctx, facts, rule):
             t = g.term(b)
             if g.blocks[b]["cleanup"] or not t.get("arg_tys") or "CollectTokenItem" not in t["arg_tys"][0]:
                 continue
+            if t["callee"].endswith("iterator::Iterator::filter") and g.j.get("root", g.path).endswith("GlobalCollect::submit_spans"):
+                n += 1                       # the sampling filter written as into_iter().filter(..).collect() (checked by the choke-point rule)
             if MUT.search(t["callee"]):
                 n += 1
                 root = g.j.get("root", g.path)
